@@ -19,7 +19,9 @@ import (
 
 func main() { vm.Main("C17", run) }
 
-var strPool = []string{"", "hello", "Hello World", `say "hi"`, `back\slash`, "§c red", "§Lbold", "§k", "§r§0§9§a§f§K§O§R", "100%", "%s", "%1$s", "日本語", "ünï", "a\nb", " ", "{}", "[]", "§", "§z not a code"}
+var strPool = []string{"", "hello", "Hello World", `say "hi"`, `back\slash`, "§c red", "§Lbold", "§k", "§r§0§9§a§f§K§O§R", "100%", "%s", "%1$s", "日本語", "ünï", "a\nb", " ", "{}", "[]", "§", "§z not a code",
+	// U+0000 and a supplementary-plane character: where NBT's modified UTF-8 and UTF-8 part ways (the library and the reference reader both carry the bytes as they are)
+	"a\x00b", "🙂", "\x00", "🙂§l🙂"}
 
 func genStr(r *vm.Rand) string {
 	if r.Intn(3) == 0 {
@@ -97,6 +99,7 @@ func refFormat(format string, args []string) (string, bool) {
 type genCfg struct {
 	forNBT bool // NBT lists are homogeneous: With is all-component or all-string
 	depth  int
+	ptr    bool // a quarter of the component arguments are *chat.Message instead of chat.Message
 }
 
 func genMsg(r *vm.Rand, g genCfg, feats map[string]bool) chat.Message {
@@ -121,7 +124,13 @@ func genMsg(r *vm.Rand, g genCfg, feats map[string]bool) chat.Message {
 				m.With = append(m.With, genStr(r)+"x") // non-empty
 				feats["with.string"] = true
 			} else {
-				m.With = append(m.With, genMsg(r, genCfg{g.forNBT, g.depth + 1}, feats))
+				sub := genMsg(r, genCfg{g.forNBT, g.depth + 1, g.ptr}, feats)
+				if g.ptr && r.Intn(4) == 0 {
+					m.With = append(m.With, &sub)
+					feats["with.pointer"] = true
+				} else {
+					m.With = append(m.With, sub)
+				}
 				feats["with.component"] = true
 			}
 		}
@@ -169,7 +178,7 @@ func genMsg(r *vm.Rand, g genCfg, feats map[string]bool) chat.Message {
 	if r.Intn(6) == 0 && g.depth < 4 {
 		switch r.Intn(3) {
 		case 0:
-			m.HoverEvent = chat.ShowText(genMsg(r, genCfg{g.forNBT, g.depth + 1}, feats))
+			m.HoverEvent = chat.ShowText(genMsg(r, genCfg{g.forNBT, g.depth + 1, g.ptr}, feats))
 		case 1:
 			m.HoverEvent = chat.ShowItem(`{id:"minecraft:stone",Count:1b}`)
 		default:
@@ -180,7 +189,7 @@ func genMsg(r *vm.Rand, g genCfg, feats map[string]bool) chat.Message {
 	if r.Intn(4) == 0 && g.depth < 4 {
 		n := r.Range(1, 3)
 		for i := 0; i < n; i++ {
-			m.Extra = append(m.Extra, genMsg(r, genCfg{g.forNBT, g.depth + 1}, feats))
+			m.Extra = append(m.Extra, genMsg(r, genCfg{g.forNBT, g.depth + 1, g.ptr}, feats))
 		}
 		feats["extra"] = true
 	}
@@ -329,20 +338,110 @@ func checkKeys(m chat.Message, v *refnbt.Value, path string) string {
 			return fmt.Sprintf("%s: key %q missing", path, k)
 		}
 	}
-	if tv := v.Get("text"); tv != nil && tv.S != m.Text {
-		return path + ".text: other content"
+	// values: what the independent reader finds under each key is what the component holds
+	for k, s := range map[string]string{"text": m.Text, "translate": m.Translate, "font": m.Font, "color": m.Color, "insertion": m.Insertion} {
+		if e := v.Get(k); e != nil && e.S != s {
+			return fmt.Sprintf("%s.%s: holds %q, the component has %q", path, k, trunc(e.S), trunc(s))
+		}
+	}
+	for _, k := range []string{"bold", "italic", "underlined", "strikethrough", "obfuscated"} {
+		if e := v.Get(k); e != nil && e.I != 1 {
+			return fmt.Sprintf("%s.%s: flag byte is %d, a set flag is 1", path, k, e.I)
+		}
+	}
+	if ce := v.Get("clickEvent"); ce != nil {
+		if d := checkStringMembers(ce, map[string]string{"action": m.ClickEvent.Action, "value": m.ClickEvent.Value}, path+".clickEvent"); d != "" {
+			return d
+		}
+	}
+	if he := v.Get("hoverEvent"); he != nil {
+		// action and the (legacy) value, itself a component; Contents is never set by this monitor and is omitted when unset
+		val := he.Get("value")
+		if val == nil || len(he.Comp) != 2 {
+			return fmt.Sprintf("%s.hoverEvent: members %v, want action and value", path, memberNames(he))
+		}
+		if d := checkStringMembers(&refnbt.Value{Tag: refnbt.Compound, Comp: []refnbt.Entry{{Name: "action", V: he.Get("action")}}}, map[string]string{"action": m.HoverEvent.Action}, path+".hoverEvent"); d != "" {
+			return d
+		}
+		if d := checkComp(m.HoverEvent.Value, val, path+".hoverEvent.value"); d != "" {
+			return d
+		}
+	}
+	if w := v.Get("with"); w != nil {
+		if len(w.List) != len(m.With) {
+			return fmt.Sprintf("%s.with: %d elements, the component has %d arguments", path, len(w.List), len(m.With))
+		}
+		for i := range m.With {
+			a, ok := argMsg(m.With[i])
+			if !ok {
+				return fmt.Sprintf("%s.with[%d]: unexpected argument type %T", path, i, m.With[i])
+			}
+			if d := checkComp(a, w.List[i], fmt.Sprintf("%s.with[%d]", path, i)); d != "" {
+				return d
+			}
+		}
 	}
 	if ex := v.Get("extra"); ex != nil {
 		if len(ex.List) != len(m.Extra) {
 			return path + ".extra: length differs"
 		}
 		for i := range m.Extra {
-			if d := checkKeys(m.Extra[i], ex.List[i], fmt.Sprintf("%s.extra[%d]", path, i)); d != "" {
+			if d := checkComp(m.Extra[i], ex.List[i], fmt.Sprintf("%s.extra[%d]", path, i)); d != "" {
 				return d
 			}
 		}
 	}
 	return ""
+}
+
+// checkComp: a component inside another one is a compound with the expected keys or, for a component that is
+// nothing but a text, possibly a bare string.
+func checkComp(m chat.Message, v *refnbt.Value, path string) string {
+	if v.Tag == refnbt.String {
+		if d := eqMsg(m, chat.Message{Text: v.S}, path); d != "" {
+			return d + " (written as a bare string)"
+		}
+		return ""
+	}
+	return checkKeys(m, v, path)
+}
+
+// checkStringMembers: a compound with exactly these string members.
+func checkStringMembers(v *refnbt.Value, want map[string]string, path string) string {
+	if v == nil || v.Tag != refnbt.Compound {
+		return path + ": not a compound"
+	}
+	if len(v.Comp) != len(want) {
+		return fmt.Sprintf("%s: members %v, want %d", path, memberNames(v), len(want))
+	}
+	for k, s := range want {
+		e := v.Get(k)
+		if e == nil {
+			return fmt.Sprintf("%s: key %q missing, members %v", path, k, memberNames(v))
+		}
+		if e.Tag != refnbt.String {
+			return fmt.Sprintf("%s.%s: is %s, want String", path, k, refnbt.TagName(e.Tag))
+		}
+		if e.S != s {
+			return fmt.Sprintf("%s.%s: holds %q, the component has %q", path, k, trunc(e.S), trunc(s))
+		}
+	}
+	return ""
+}
+
+func memberNames(v *refnbt.Value) []string {
+	var n []string
+	for _, e := range v.Comp {
+		n = append(n, e.Name)
+	}
+	return n
+}
+
+func trunc(s string) string {
+	if len(s) > 60 {
+		return s[:60] + "..."
+	}
+	return s
 }
 
 func short(s string) string {
@@ -354,7 +453,7 @@ func short(s string) string {
 
 func checkComponent(c *vm.Ctx, r *vm.Rand, i int) {
 	feats := map[string]bool{}
-	m := genMsg(r, genCfg{forNBT: true}, feats)
+	m := genMsg(r, genCfg{forNBT: true, ptr: true}, feats)
 	checkMsg(c, m, feats, i)
 }
 
@@ -416,7 +515,13 @@ func checkShapes(c *vm.Ctx, r *vm.Rand, i int) {
 func checkMsg(c *vm.Ctx, m chat.Message, feats map[string]bool, i int) {
 	js, _ := json.Marshal(m)
 	desc := short(string(js))
-	wit := func() any { return map[string]any{"component_json": desc} }
+	note := witNote
+	wit := func() any {
+		if note != "" {
+			return map[string]any{"component_json": desc, "note": note}
+		}
+		return map[string]any{"component_json": desc}
+	}
 	c.Eval(vm.Hash64(js), len(js) > 20)
 
 	// --- JSON
@@ -439,6 +544,7 @@ func checkMsg(c *vm.Ctx, m chat.Message, feats map[string]bool, i int) {
 			c.Cover("json.roundtrip")
 		}
 	}
+	checkJSONView(c, m, js, wit)
 	// JsonMessage as a packet field
 	var jm chat.JsonMessage
 	var buf bytes.Buffer
@@ -467,7 +573,12 @@ func checkMsg(c *vm.Ctx, m chat.Message, feats map[string]bool, i int) {
 		c.Violation("nbt/write-error/"+vm.NormErr(err.Error()), "NBT encoding of a component failed: "+err.Error(), wit())
 		return
 	}
-	w2 := func() any { return map[string]any{"component_json": desc, "nbt_hex": vm.Hex(nb.Bytes())} }
+	w2 := func() any {
+		if note != "" {
+			return map[string]any{"component_json": desc, "note": note, "nbt_hex": vm.Hex(nb.Bytes())}
+		}
+		return map[string]any{"component_json": desc, "nbt_hex": vm.Hex(nb.Bytes())}
+	}
 	if wn != int64(nb.Len()) {
 		c.Violation("nbt/write-count", fmt.Sprintf("WriteTo returned %d, produced %d bytes", wn, nb.Len()), w2())
 	}
@@ -522,7 +633,7 @@ func checkMsg(c *vm.Ctx, m chat.Message, feats map[string]bool, i int) {
 // mixedJSON: JSON-only components with mixed string/component arguments.
 func checkMixedJSON(c *vm.Ctx, r *vm.Rand) {
 	feats := map[string]bool{}
-	m := genMsg(r, genCfg{forNBT: false}, feats)
+	m := genMsg(r, genCfg{forNBT: false, ptr: true}, feats)
 	js, err := json.Marshal(m)
 	wit := func() any { return map[string]any{"component_json": short(string(js))} }
 	if err != nil {
@@ -558,7 +669,13 @@ func checkMixedNBT(c *vm.Ctx, r *vm.Rand) {
 			m.With = append(m.With, genStr(r)+"x")
 			feats["s"] = true
 		} else {
-			m.With = append(m.With, genMsg(r, genCfg{forNBT: true, depth: 3}, map[string]bool{}))
+			sub := genMsg(r, genCfg{forNBT: true, depth: 3, ptr: true}, map[string]bool{})
+			if r.Intn(4) == 0 {
+				m.With = append(m.With, &sub)
+				feats["p"] = true
+			} else {
+				m.With = append(m.With, sub)
+			}
 			feats["c"] = true
 		}
 	}
@@ -595,6 +712,9 @@ func checkMixedNBT(c *vm.Ctx, r *vm.Rand) {
 		return
 	}
 	c.Cover("nbt.mixed-arguments")
+	if feats["p"] {
+		c.Cover("nbt.mixed-arguments.pointer")
+	}
 }
 
 // checkPlainArgs: formatting codes inside string-kind translation arguments are removed in plain mode like anywhere else.
@@ -726,7 +846,7 @@ func checkType(c *vm.Ctx, r *vm.Rand) {
 	feats := map[string]bool{}
 	t := chat.Type{ID: int32(r.Intn(50)), SenderName: genMsg(r, genCfg{forNBT: true, depth: 3}, feats)}
 	if r.Intn(4) == 0 {
-		t.ID = []int32{127, 128, 300, 16383, 16384, 1 << 21, 0x7fffffff}[r.Intn(7)]
+		t.ID = []int32{127, 128, 300, 16383, 16384, 1 << 21, 0x7fffffff, -1, 1<<28 - 1, 1 << 28, -1 << 31}[r.Intn(11)]
 	}
 	withTarget := r.Bool()
 	if withTarget {
@@ -797,13 +917,19 @@ func checkTypeOf(c *vm.Ctx, t chat.Type, cls string) {
 		return
 	}
 	c.Cover("type." + cls)
+	switch {
+	case t.ID < 0:
+		c.Cover("type.id-negative")
+	case t.ID >= 1<<28-1 && t.ID <= 1<<28:
+		c.Cover("type.id-around-2^28")
+	}
 }
 
 var codePair = regexp.MustCompile(`§[0-9a-fk-orA-FK-OR]`)
 
 func checkRender(c *vm.Ctx, r *vm.Rand) {
 	feats := map[string]bool{}
-	m := genMsg(r, genCfg{forNBT: false}, feats)
+	m := genMsg(r, genCfg{forNBT: false, ptr: true}, feats)
 	js, _ := json.Marshal(m)
 	wit := func() any { return map[string]any{"component_json": short(string(js))} }
 	var plain, ansi string
@@ -893,8 +1019,20 @@ func checkTranslate(c *vm.Ctx, r *vm.Rand) {
 		c.Violation("translate/order-helper", fmt.Sprintf("TranslateMsg(...).ClearString() = %q, want %q", short(got2), short(want)), wit())
 		return
 	}
+	// the ANSI renderer substitutes on its own: nothing here is styled and no argument carries a formatting code, so
+	// it has to give the same text, without any escape sequence
+	var got3, got4 string
+	if c.Guard("translate/string", wit, func() { got3 = m.String(); got4 = chat.TranslateMsg(key, with...).String() }) {
+		return
+	}
+	if got3 != want || got4 != want {
+		c.Violation("translate/ansi-order", fmt.Sprintf("String() = %q, TranslateMsg(...).String() = %q; arguments substituted in order give %q", short(got3), short(got4), short(want)), wit())
+		return
+	}
+	c.Cover("translate.ansi-ok")
 	if n >= 2 {
 		c.Cover("translate.multi-arg-in-order")
+		c.Cover("translate.ansi-multi-arg-in-order")
 	}
 	c.Cover("translate.ok")
 }
@@ -936,5 +1074,29 @@ func run(c *vm.Ctx) {
 	xr := c.Rand("translate")
 	for i := 0; i < c.Scale(8000, 160000); i++ {
 		checkTranslate(c, xr)
+	}
+	ar := c.Rand("array-args")
+	for i := 0; i < c.Scale(3000, 60000); i++ {
+		checkArrayArgs(c, ar)
+	}
+	mo := c.Rand("from-model")
+	for i := 0; i < c.Scale(6000, 120000); i++ {
+		checkFromModel(c, mo)
+	}
+	nr := c.Rand("nested-render")
+	for i := 0; i < c.Scale(8000, 160000); i++ {
+		checkNestedRender(c, nr, false)
+	}
+	if c.Shard == 1%c.NShards {
+		checkLongTexts(c)
+	}
+	// *chat.Message arguments through the plain renderer (ClearString once had no case for the pointer kind: the
+	// argument went through String() and brought escape sequences; fixed, see known_findings.json)
+	{
+		pr := c.Rand("pointer-arguments")
+		for i := 0; i < c.Scale(2000, 40000); i++ {
+			checkPointerPlainArgs(c, pr)
+			checkNestedRender(c, pr, true)
+		}
 	}
 }
